@@ -19,6 +19,7 @@ import AsynqModel.Drv.Families6t
 import AsynqModel.Drv.Families6v
 import AsynqModel.Drv.Families6c
 import AsynqModel.Drv.Families7
+import AsynqModel.Drv.Families8
 open AsynqModel
 
 /-- dispatch one case to the model of its mode -/
@@ -93,6 +94,10 @@ def handleCase (mode : String) (id : Nat) (hdr body : List Sexp) : String :=
   | "hookenter" => Drv.Families6c.hookenter id hdr body
   | "afterthrow" => Drv.Families6c.afterthrow id hdr body
   | "sharedread" => Drv.Families7.sharedread id hdr body
+  | "selfcancel" => Drv.Families8.selfcancel id hdr body
+  | "deepfail" => Drv.Families8.deepfail id hdr body
+  | "flushabort" => Drv.Families8.flushabort id hdr body
+  | "deepdump" => Drv.Families8.deepdump id hdr body
   | "futures" => Drv.Futures.handle id hdr body
   | "futsubs" => Drv.Futures.handleSubs id hdr body
   | "futcopy" => Drv.Futures.handleCopy id hdr body
